@@ -382,6 +382,8 @@ def evaluate(case):
             positions = [("between", None)]
         if case["tree"] == "group70":
             positions = [("between", None)] if tier == "quick" else [("pause", last_access + 1), ("pause", K - 1), ("between", None)]
+            if tier != "quick":
+                ops = OPS + ["remove|n1", "link|newest", "move|nolock"]
         if case.get("only"):
             positions = [tuple(case["only"][0])]
             ops = [case["only"][1]]
